@@ -710,8 +710,12 @@ var spellContexts = []string{
 	"%s // c", "// c\n%s", "return %s", "'s' + %s", "%s;%s", "%s\n%s", "1;%s", "x.y = %s", "x = [0]; x[0] = %s", "this.y = %s", "%sd6", "d%s", "2d6k%s", "[1..%s]", "1d6 %s", "toStr(%s)", "g(%s, %s)",
 }
 
-func drawSpellCase(t *rapid.T, cfg vmx.Cfg) (src, ctx string) {
+func drawSpellCase(t *rapid.T, s *rt.Section, cfg vmx.Cfg) (src, ctx string) {
 	ctx = rapid.SampledFrom(spellContexts).Draw(t, "ctx")
+	if ctx == "^stx-%s" && s.Avoid("st_minus_value") {
+		// C16-F01: `^st name-value` panics when the value is not a number; the -= form does not negate
+		ctx = "^stx-=%s"
+	}
 	n := strings.Count(ctx, "%s")
 	args := make([]any, n)
 	for i := range args {
@@ -921,7 +925,7 @@ func drawStep(t *rapid.T, s *rt.Section, cfg vmx.Cfg) Step {
 		f := rapid.SampledFrom([]string{"wod", "coc", "fate", "dc"}).Draw(t, "plainFam")
 		st.Src = rapid.SampledFrom(append(append([]string{}, famUses[f]...), macroUses...)).Draw(t, "plainUse")
 	case 6:
-		st.Src, _ = drawSpellCase(t, cfg)
+		st.Src, _ = drawSpellCase(t, s, cfg)
 	case 7:
 		st.Src = rapid.SampledFrom(fixedProgs).Draw(t, "fixed")
 	default:
@@ -1236,7 +1240,7 @@ func TestProp(t *testing.T) {
 
 	ntRule := "Non-trivial = the parser accepts the input, the input has no #EnableDice macro, and its consumed text spells something for a gate the configuration keeps closed: a letter of a disabled family (a A / b B p P / c C / f F) next to a digit or parenthesis (or standing alone for b p f), a statement keyword under DisableStmts, a side-less d under DisableNDice, a single | or & under DisableBitwiseOp; distinct by source text + the seven flags"
 
-	run.Check("gate", 28000, 450000,
+	run.Check("gate", 28000, 350000,
 		"generated programs (dice of every family regardless of the flags half of the time), expression-only programs, program + broken tail, fixed snippets (every family in every position, statements, Nd, bitwise, ^st forms), hostile templates, hostile-typed programs, byte mutations, program joined with a spelling; x all 2^4 family settings x DisableStmts x DisableNDice x DisableBitwiseOp; fresh seeded VM, Parse, listing (nested bodies included) checked against the closed gates, then run under the work meter, Config compared field by field, every function/computed body reachable from the variables and the result checked too. "+ntRule,
 		func(t *rapid.T, s *rt.Section) {
 			c := Case{Cfg: drawCfg(t)}
@@ -1249,12 +1253,12 @@ func TestProp(t *testing.T) {
 			s.Report(t, f)
 		})
 
-	run.Check("spell", 32000, 500000,
+	run.Check("spell", 32000, 400000,
 		"spellings: 1..7 atoms drawn from whole gated terms (2a5, b2, f, 2c5m7, 3d, (1|2), a template hole holding a statement, ... preferring closed gates), family letters (both cases), modifier letters (m k q d kh kl dh dl min max 优势), numbers, parentheses/brackets, identifier characters (ASCII, CJK, $ _ :, the full-width brackets and digit that count as identifier characters), blanks and operators, placed in one of 61 contexts (bare, assignment, list, call, template holes of both kinds and both delimiters, function body, computed definition, every ^st value form, dict, ternary arms, if/while, index/slice, dice operands); same configurations and oracle as gate. "+ntRule,
 		func(t *rapid.T, s *rt.Section) {
 			c := Case{Cfg: drawCfg(t)}
 			var ctx string
-			c.Src, ctx = drawSpellCase(t, c.Cfg)
+			c.Src, ctx = drawSpellCase(t, s, c.Cfg)
 			c.Kind = "spell"
 			s.Eval()
 			s.Class("ctx:" + ctx)
@@ -1278,15 +1282,16 @@ func TestProp(t *testing.T) {
 			runEnum(s, run, alpha, 4-short, []string{"%s"})
 			return
 		}
-		alpha := []string{"2", "a", "b", "c", "f", "p", "m", "k", "(", ")", " ", "d"}
-		wrappers := []string{"^stx=%s", "`{%s}`", "func g() { %s }"}
-		s.Bounds = fmt.Sprintf("alphabet %q: all strings of length 1..%d bare, and of length 1..%d in the wrappers %q; 16 family settings each", alpha, 5-short, 4-short, wrappers)
+		alpha := []string{"2", "a", "b", "c", "f", "p", "m", "k", "(", ")", "d"}
+		alphaW := []string{"2", "a", "b", "c", "f", "p", "m", "k", "(", ")", " ", "d"}
+		wrappers := []string{"^stx=%s", "`{%s}`"}
+		s.Bounds = fmt.Sprintf("alphabet %q: all strings of length 1..%d bare; alphabet %q: all strings of length 1..%d in the wrappers %q; 16 family settings each", alpha, 5-short, alphaW, 4-short, wrappers)
 		if runEnum(s, run, alpha, 5-short, []string{"%s"}) {
-			runEnum(s, run, alpha, 4-short, wrappers)
+			runEnum(s, run, alphaW, 4-short, wrappers)
 		}
 	})
 
-	run.Check("history", 2400, 40000,
+	run.Check("history", 2400, 30000,
 		"one VM, 1..5 evaluations (Run / Parse / RunExpr) of texts with `// #EnableDice <family> true|false` macros (spacing variants, unknown family names, the GUIDE's non-macro spelling) placed first, between statements, inside function bodies, template holes, blocks, before computed reads, switched on then off, and of macro-free texts (family uses, calls of functions defined under a macro, spellings, generated programs). After every step: Config equals its initial value field by field; 15 macro-free probes (2a5 a5 2a5k6m9 b2 p f 2c5 2c5m7, if/func/while, 3d d, 1|2 1&2) parsed on the same VM compile to exactly the gated instructions the configuration prescribes (none when the gate is closed); every macro-free step's own listing respects the closed gates; at the end a fresh VM passes the probes too. Non-trivial = at least one step has a macro and a later step (or probe) is macro-free; distinct by configuration + steps",
 		func(t *rapid.T, s *rt.Section) {
 			c := HistCase{Cfg: drawCfg(t)}
@@ -1312,7 +1317,7 @@ func TestProp(t *testing.T) {
 			s.Report(t, f)
 		})
 
-	run.Check("lazy", 12000, 200000,
+	run.Check("lazy", 12000, 150000,
 		"bodies compiled at call time with the calling VM's configuration: a text (spelling in context, fixed snippet, generated expression or program; all families spelled regardless of the flags) installed as a function restored from JSON, a function value without code, a computed value restored from JSON or made by NewComputedVal, evaluated by a script call/load, then the code the VM compiled into the value is inspected against the closed gates; RunExpr(text) and DefaultDiceSideExpr=text (whose compiled bodies are not reachable) are compared with a twin VM (same configuration and seed) that evaluates the same text as an inspectable function value: value, error-ness and generator state must agree. Config compared field by field. Non-trivial = a body was compiled and its text spells something for a closed gate; distinct by configuration + how + body",
 		func(t *rapid.T, s *rt.Section) {
 			c := LazyCase{Cfg: drawCfg(t)}
@@ -1322,7 +1327,7 @@ func TestProp(t *testing.T) {
 			}
 			switch rapid.IntRange(0, 5).Draw(t, "bodyKind") {
 			case 0, 1:
-				c.Body, _ = drawSpellCase(t, c.Cfg)
+				c.Body, _ = drawSpellCase(t, s, c.Cfg)
 			case 2:
 				c.Body = rapid.SampledFrom(fixedProgs).Draw(t, "fixed")
 			case 3:
